@@ -7,7 +7,7 @@ LEVEL = "proof"
 MODEL = "lean/Sentinel/Config.lean (Cfg.check, nodeNew, Store) with the ring model of C02 for the windows"
 RULE = ("one child process per case. (sample_count_total, interval_ms_total, sample_count, interval_ms) from the grid {0,1,2,3,10,20} x {0,999,1000,5000,7000,10000} x {0,1,2,3,5} x "
         "{0,333,500,1000,2500,5000,10000} (thorough: the full product; quick: every accepted combination plus a sample of the rejected ones), occasionally an empty version / app name / zero "
-        "file limits; by entity or YAML; init on the main thread or on a second thread; then the accessors on both threads, a node touched on each thread, reads of the default metric and of a "
+        "file limits; by entity or YAML; init on the main thread or on a second thread; in half of the cases a long-lived worker thread reads the configuration (and may create a node) before the initialisation and is used again afterwards; then the accessors on all threads, a node touched on each thread, reads of the default metric and of a "
         "reader over the whole global window after clock steps of one default bucket / one global bucket, until both have emptied. Non-trivial: accepted configuration with a node created on "
         "the non-initialising thread, or a rejected configuration; distinct = distinct op text.")
 NONTRIVIAL_TAGS = ["touch:other", "init:rejected:stat", "init:rejected:version", "init:rejected:app", "init:rejected:max_file_count", "init:rejected:single_file_max_size"]
@@ -39,8 +39,16 @@ def case_for(rng, q, extra=""):
     ops = ["clock"]
     th = rng.choice(["main", "main", "other"])
     by = rng.choice(["entity", "yaml"])
+    # a long-lived worker thread that looked at the configuration (or even created a node) before the initialisation
+    early = rng.random() < 0.5
+    if early:
+        ops.append("cfg thread=worker")
+        if rng.random() < 0.4:
+            ops.append("touch thread=worker res=early n=1")
     ops.append("init sct=%d ivt=%d sc=%d iv=%d by=%s thread=%s%s" % (sct, ivt, sc, iv, by, th, extra))
     ops += ["cfg thread=main", "cfg thread=other"]
+    if early:
+        ops += ["cfg thread=worker", "touch thread=worker res=w n=%d" % rng.randint(1, 3)]
     esct, eivt, esc, eiv = q if ok else (20, 10000, 2, 1000)
     t1, t2 = rng.choice([("main", "other"), ("other", "main"), ("other", "other")])
     ops.append("touch thread=%s res=a n=%d" % (t1, rng.randint(1, 5)))
@@ -52,6 +60,8 @@ def case_for(rng, q, extra=""):
     total = 0
     while total <= eivt + gb and steps < 14:
         ops.append("read thread=%s res=a rsc=%d riv=%d" % (rng.choice(["main", "other"]), esct, eivt))
+        if early and rng.random() < 0.4:
+            ops.append("read thread=%s res=w rsc=%d riv=%d" % (rng.choice(["main", "worker"]), esct, eivt))
         if "res=b" in " ".join(ops) and rng.random() < 0.5:
             ops.append("read thread=main res=b rsc=%d riv=%d" % (esct, eivt))
         d = rng.choice([rb, gb, gb, eiv, max(1, gb - 1), eivt // 2 or 1])
@@ -83,9 +93,9 @@ def gen(rng, tier):
     # a second initialisation after nodes exist (old nodes keep their geometry, new nodes take the new one)
     for _ in range(10 if tier == "quick" else 60):
         q1, q2 = rng.choice(acc), rng.choice(acc)
-        ops = ["clock", "init sct=%d ivt=%d sc=%d iv=%d by=entity thread=main" % q1, "touch thread=other res=a n=2",
+        ops = ["clock", "cfg thread=worker", "init sct=%d ivt=%d sc=%d iv=%d by=entity thread=main" % q1, "touch thread=%s res=a n=2" % rng.choice(["other", "worker"]), "cfg thread=worker",
                "init sct=%d ivt=%d sc=%d iv=%d by=%s thread=%s" % (q2 + (rng.choice(["entity", "yaml"]), rng.choice(["main", "other"]))),
-               "cfg thread=main", "cfg thread=other", "touch thread=main res=a n=1", "touch thread=other res=c n=3",
+               "cfg thread=main", "cfg thread=other", "cfg thread=worker", "touch thread=main res=a n=1", "touch thread=%s res=c n=3" % rng.choice(["other", "worker"]),
                "read thread=main res=a rsc=%d riv=%d" % (q1[0], q1[1]), "read thread=other res=c rsc=%d riv=%d" % (q2[0], q2[1]),
                "adv ms=%d" % (q2[3] // q2[2]), "read thread=main res=c rsc=%d riv=%d" % (q2[0], q2[1]), "adv ms=%d" % q2[3],
                "read thread=main res=c rsc=%d riv=%d" % (q2[0], q2[1]), "read thread=main res=a rsc=%d riv=%d" % (q1[0], q1[1])]
